@@ -115,7 +115,7 @@ class _AttachClient(BaseClient):
 
 def run(repo, res, tier):
     res.rules = ["K1 returns deepcopy(self)", "K2 parent detach restored on all exits", "K3 no copy customisation",
-                 "K4 no mutated class-level containers", "K5 writes target the copy", "K6 keyword overrides / lazy style kwargs not shared (ORIGIN)", "K7 the copy joins its new parent last", "K8 parent override not decided by truthiness"]
+                 "K4 no mutated class-level containers", "K5 writes target the copy", "K6 keyword overrides / lazy style kwargs not shared (ORIGIN)", "K7 the copy joins its new parent last", "K8 parent override not decided by truthiness", "K8b overrides applied by presence, not by `is not None`", "K9 no identity numbers in object state"]
     geo = repo.cls("BaseGeo")
     res.require("copy" in geo.methods, "anchor vanished: BaseGeo.copy")
     fn = geo.methods["copy"]
@@ -210,6 +210,52 @@ def run(repo, res, tier):
                 res.ob(f"K8:{norm(iff.test)}", False)
                 res.add(Finding("K8", rel, "BaseGeo.copy", iff.test, "the parent= override is applied only if the given collection is truthy: an empty Collection is falsy, so "
                                 "x.copy(parent=Collection()) returns a parentless copy and the collection stays empty", iff.lineno))
+    # ---- K8b: an override is applied because it was *given*, not because its value is not None: None is a legal value of several
+    #           attributes (orientation=None is the unit rotation, style=None, polarization=None resets).  A named parameter of copy()
+    #           with default None that is applied only `if p is not None` silently ignores copy(p=None).
+    named = [a_.arg for a_ in fn.args.args[1:] + fn.args.kwonlyargs]
+    dflt = {}
+    pos_ = fn.args.args
+    for a_, d_ in zip(pos_[len(pos_) - len(fn.args.defaults):], fn.args.defaults):
+        dflt[a_.arg] = d_
+    for a_, d_ in zip(fn.args.kwonlyargs, fn.args.kw_defaults):
+        if d_ is not None:
+            dflt[a_.arg] = d_
+    for pn in named:
+        d_ = dflt.get(pn)
+        if not (isinstance(d_, ast.Constant) and d_.value is None):
+            continue
+        admits_none = False
+        for cl_ in repo.cls_by_key.values():
+            sf = cl_.setters.get(pn)
+            if sf is not None and (any(isinstance(k, ast.keyword) and k.arg == "allow_None" and isinstance(k.value, ast.Constant) and k.value.value is True for k in ast.walk(sf))
+                                   or any(isinstance(c_, ast.Call) and getattr(c_.func, "id", "") == "check_format_input_orientation" for c_ in ast.walk(sf))
+                                   or any(isinstance(c_, ast.Compare) and isinstance(c_.ops[0], (ast.Is, ast.IsNot)) and isinstance(c_.comparators[0], ast.Constant)
+                                          and c_.comparators[0].value is None for c_ in ast.walk(sf))):
+                admits_none = True
+        tests = [c_ for c_ in ast.walk(fn) if isinstance(c_, ast.Compare) and len(c_.ops) == 1 and isinstance(c_.ops[0], (ast.Is, ast.IsNot)) and isinstance(c_.left, ast.Name)
+                 and c_.left.id == pn and isinstance(c_.comparators[0], ast.Constant) and c_.comparators[0].value is None]
+        ok = not (admits_none and tests)
+        res.ob(f"K8b:{pn}", ok, {"rule": "K8b", "parameter": pn, "setter_admits_None": admits_none, "none_tests": [norm(t_) for t_ in tests]})
+        if not ok:
+            res.add(Finding("K8b", rel, "BaseGeo.copy", tests[0], f"the `{pn}=` override is applied only when its value is not None, but None is a legal value of `{pn}` "
+                            f"(its setter admits it): copy({pn}=None) keeps the original's value instead of applying the override", tests[0].lineno))
+    # ---- K9: no identity numbers in object state: `id(x)` stored in an attribute is copied verbatim by deepcopy, so the copy's bookkeeping names
+    #          the ORIGINAL's objects (and, after those are freed, arbitrary new ones)
+    n9 = 0
+    for m_, qn_, f_, cl_ in repo.all_functions():
+        if not m_.name.startswith("magpylib._src.obj_classes") and m_.name != "magpylib._src.utility":
+            continue
+        for a_ in ast.walk(f_):
+            if isinstance(a_, (ast.Assign, ast.AugAssign)):
+                tg_ = a_.targets if isinstance(a_, ast.Assign) else [a_.target]
+                if any(isinstance(t_, ast.Attribute) or (isinstance(t_, ast.Subscript) and isinstance(t_.value, ast.Attribute)) for t_ in tg_) \
+                        and any(isinstance(c_, ast.Call) and isinstance(c_.func, ast.Name) and c_.func.id == "id" for c_ in ast.walk(a_.value)):
+                    n9 += 1
+                    res.ob(f"K9:{qn_}:{norm(a_)[:50]}", False)
+                    res.add(Finding("K9", m_.rel, qn_, a_, "object identity numbers are stored in object state: deepcopy reproduces the integers, so the copy's bookkeeping "
+                                    "refers to the original's objects and membership / removal on the copied tree goes wrong", a_.lineno))
+    res.ob("K9:no id() values in object state", n9 == 0, {"rule": "K9", "stores_of_id_values": n9})
     # ---- K5 writes
     for w in collect_writes(fn, set(repo.classes)):
         if w.recv == "self" and w.attr == "_parent":
